@@ -106,7 +106,10 @@ class AutoSeparatedPacketSerializer(BufferedIncrementalPacketSerializer[_T_SentD
         if self.__incremental_serialize_check_separator:
             while data.endswith(separator):
                 data = data.removesuffix(separator)
-            if separator in data:
+            # NOTE: Also look at the junction with the separator which is about to be appended: with a self-overlapping
+            #       separator (e.g. b"||"), a packet ending with a part of it (b"a|") would be cut one byte too early
+            #       by the receiver.
+            if separator in data + separator[:-1]:
                 raise ValueError(f"{separator!r} separator found in serialized packet {packet!r} which was not at the end")
         elif data.endswith(separator):
             yield data
